@@ -320,8 +320,7 @@ def fxp_max(x, axis=None, out=None, out_like=None, sizing='optimal', method='raw
     """
     """
     def _max_raw(x, n_frac, **kwargs):
-        precision_cast = (lambda m: np.array(m, dtype=object)) if n_frac >= _n_word_max else (lambda m: m)
-        return np.max(x.val, **kwargs) * precision_cast(2**(n_frac - x.n_frac))
+        return utils.scale_raw(np.max(x.val, **kwargs), n_frac - x.n_frac)   # (exact: python integers / exact quotients where 64 bits numpy integers or a float factor would not do)
 
     kwargs['axis'] = axis  
     return _function_over_one_var(repr_func=np.max, raw_func=_max_raw, x=x, out=out, out_like=out_like, sizing=sizing, method=method, **kwargs)
@@ -331,8 +330,7 @@ def fxp_min(x, axis=None, out=None, out_like=None, sizing='optimal', method='raw
     """
     """
     def _min_raw(x, n_frac, **kwargs):
-        precision_cast = (lambda m: np.array(m, dtype=object)) if n_frac >= _n_word_max else (lambda m: m)
-        return np.min(x.val, **kwargs) * precision_cast(2**(n_frac - x.n_frac))
+        return utils.scale_raw(np.min(x.val, **kwargs), n_frac - x.n_frac)   # (exact: python integers / exact quotients where 64 bits numpy integers or a float factor would not do)
     
     kwargs['axis'] = axis  
     return _function_over_one_var(repr_func=np.min, raw_func=_min_raw, x=x, out=out, out_like=out_like, sizing=sizing, method=method, **kwargs)
@@ -580,8 +578,7 @@ def sum(x, axis=None, out=None, out_like=None, sizing='optimal', method='raw', *
     """
     """
     def _sum_raw(x, n_frac, **kwargs):
-        precision_cast = (lambda m: np.array(m, dtype=object)) if n_frac >= _n_word_max else (lambda m: m)
-        return np.sum(x.val, **kwargs) * precision_cast(2**(n_frac - x.n_frac))
+        return utils.scale_raw(np.sum(x.val, **kwargs), n_frac - x.n_frac)   # (exact: python integers / exact quotients where 64 bits numpy integers or a float factor would not do)
 
     if not isinstance(x, Fxp):
         x = Fxp(x)
@@ -600,8 +597,7 @@ def cumsum(x, axis=None, out=None, out_like=None, sizing='optimal', method='raw'
     """
     """
     def _cumsum_raw(x, n_frac, **kwargs):
-        precision_cast = (lambda m: np.array(m, dtype=object)) if n_frac >= _n_word_max else (lambda m: m)
-        return np.cumsum(x.val, **kwargs) * precision_cast(2**(n_frac - x.n_frac))
+        return utils.scale_raw(np.cumsum(x.val, **kwargs), n_frac - x.n_frac)   # (exact: python integers / exact quotients where 64 bits numpy integers or a float factor would not do)
 
     if not isinstance(x, Fxp):
         x = Fxp(x)
@@ -649,8 +645,7 @@ def sort(x, axis=-1, out=None, out_like=None, sizing='optimal', method='raw', **
     """
     """
     def _sort_raw(x, n_frac, **kwargs):
-        precision_cast = (lambda m: np.array(m, dtype=object)) if n_frac >= _n_word_max else (lambda m: m)
-        return np.sort(x.val, **kwargs) * precision_cast(2**(n_frac - x.n_frac))
+        return utils.scale_raw(np.sort(x.val, **kwargs), n_frac - x.n_frac)   # (exact: python integers / exact quotients where 64 bits numpy integers or a float factor would not do)
 
     kwargs['axis'] = axis
     return _function_over_one_var(repr_func=np.sort, raw_func=_sort_raw, x=x, out=out, out_like=out_like, sizing=sizing, method=method, **kwargs)
@@ -672,8 +667,7 @@ def transpose(x, axes=None, out=None, out_like=None, sizing='optimal', method='r
     """
     """
     def _transpose_raw(x, n_frac, **kwargs):
-        precision_cast = (lambda m: np.array(m, dtype=object)) if n_frac >= _n_word_max else (lambda m: m)
-        return np.transpose(x.val, axes=kwargs.get('axes')) * precision_cast(2**(n_frac - x.n_frac))
+        return utils.scale_raw(np.transpose(x.val, axes=kwargs.get('axes')), n_frac - x.n_frac)   # (exact: python integers / exact quotients where 64 bits numpy integers or a float factor would not do)
 
     kwargs['axes'] = axes
     return _function_over_one_var(repr_func=np.transpose, raw_func=_transpose_raw, x=x, out=out, out_like=out_like, sizing=sizing, method=method, **kwargs)
@@ -700,7 +694,7 @@ def clip(a, a_min=None, a_max=None, out=None, out_like=None, sizing='optimal', m
         val_min = _raw_bound(val_min, -np.inf)
         val_max = _raw_bound(val_max, np.inf)
 
-        return utils.clip(x.val, val_min=val_min, val_max=val_max) * precision_cast(2**(n_frac - x.n_frac))
+        return utils.scale_raw(utils.clip(x.val, val_min=val_min, val_max=val_max), n_frac - x.n_frac)
 
     kwargs['a_min'] = a_min
     kwargs['a_max'] = a_max
@@ -711,8 +705,7 @@ def diagonal(a, offset=0, axis1=0, axis2=1, out=None, out_like=None, sizing='opt
     """
     """
     def _diagonal_raw(x, n_frac, **kwargs):
-        precision_cast = (lambda m: np.array(m, dtype=object)) if n_frac >= _n_word_max else (lambda m: m)
-        return np.diagonal(x.val, **kwargs) * precision_cast(2**(n_frac - x.n_frac))
+        return utils.scale_raw(np.diagonal(x.val, **kwargs), n_frac - x.n_frac)   # (exact: python integers / exact quotients where 64 bits numpy integers or a float factor would not do)
 
     kwargs['offset'] = offset
     kwargs['axis1'] = axis1
@@ -724,8 +717,7 @@ def trace(a, offset=0, axis1=0, axis2=1, out=None, out_like=None, sizing='optima
     """
     """
     def _trace_raw(x, n_frac, **kwargs):
-        precision_cast = (lambda m: np.array(m, dtype=object)) if n_frac >= _n_word_max else (lambda m: m)
-        return np.trace(x.val, **kwargs) * precision_cast(2**(n_frac - x.n_frac))
+        return utils.scale_raw(np.trace(x.val, **kwargs), n_frac - x.n_frac)   # (exact: python integers / exact quotients where 64 bits numpy integers or a float factor would not do)
 
     if not isinstance(a, Fxp):
         a = Fxp(a)
@@ -756,7 +748,7 @@ def prod(a, axis=None, out=None, out_like=None, sizing='optimal', method='raw', 
     def _prod_raw(x, n_frac, axis=None, **kwargs):
         precision_cast = (lambda m: np.array(m, dtype=object)) if n_frac >= _n_word_max else (lambda m: m)
         num_of_products = _num_of_products(a, axis)
-        return np.prod(x.val, axis=axis, **kwargs) * precision_cast(2**(n_frac - num_of_products * x.n_frac))
+        return utils.scale_raw(np.prod(x.val, axis=axis, **kwargs), n_frac - num_of_products * x.n_frac)
 
     if not isinstance(a, Fxp):
         a = Fxp(a)
@@ -777,7 +769,7 @@ def dot(x, y, out=None, out_like=None, sizing='optimal', method='raw', **kwargs)
     """
     def _dot_raw(x, y, n_frac, **kwargs):
         precision_cast = (lambda m: np.array(m, dtype=object)) if n_frac >= _n_word_max else (lambda m: m)
-        return np.dot(x.val, y.val, **kwargs) * precision_cast(2**(n_frac - x.n_frac - y.n_frac))
+        return utils.scale_raw(np.dot(x.val, y.val, **kwargs), n_frac - x.n_frac - y.n_frac)
 
     if not isinstance(x, Fxp):
         x = Fxp(x)
